@@ -22,7 +22,7 @@ GROUPS = {
     "Parser": ("_parser.py", ["_span_to_tok", "_span_to_str_or_int", "DLTypeDimensionExpression.from_multiaxis_literal", "@_VALID_IDENTIFIER_RX"]),
     "Shape": ("_tensor_type_base.py", ["TensorTypeBase.__class_getitem__"]),
     "Expand": ("_dltype_context.py", ["_ConcreteType.tensor_arg_name", "DLTypeContext.__init__"]),
-    "Hints": ("_core.py", ["DLTypeAnnotation.from_hint", "_resolve_types", "_resolve_value", "_maybe_get_type_hints", "_maybe_get_signature"]),
+    "Hints": ("_core.py", ["_resolve_types", "_resolve_value", "_maybe_get_type_hints", "_maybe_get_signature"]),
     "Decorate": ("_core.py", ["dltyped", "dltyped_namedtuple", "dltyped_dataclass"]),
     "Pydantic": ("_tensor_type_base.py", ["TensorTypeBase.__get_pydantic_core_schema__", "unwrap_type_alias", "_resolve_numpy_dtype"]),
     "Symbolic": ("_symbolic_expressions.py", ["*"]),
